@@ -39,6 +39,7 @@ type UnprovedList struct {
 	Ctx     map[string][]string
 	PathCtx map[string][][]string
 	PathFn  map[string][]string
+	byFn    map[string][]unprovedEntry
 	HasCtx  bool
 }
 
@@ -55,75 +56,100 @@ func subsetOf(a, b []string) bool {
 	return true
 }
 
-// ctxOK: some baseline obligation with path q had no more validators before it
-// than this one has.
-func (u *UnprovedList) ctxOK(q, fn string, ctx []string) bool {
-	if !u.HasCtx {
+type unprovedEntry struct {
+	fn, kind, tail, ptr string
+	cut                 bool
+	ctx                 []string
+}
+
+var reLastField = regexp.MustCompile(`(\.[A-Za-z_][A-Za-z0-9_]*(\(\))?|\.\([^()]*\))$`)
+
+// splitObl: function, kind, root variable, path after the root, and the
+// pointer path (the path of the value that is dereferenced: the path without
+// its last step; qualified by the root when nothing else is left).
+func splitObl(name string) (fn, kind, root, tail, ptr string, ok bool) {
+	m := reOblName.FindStringSubmatch(name)
+	if m == nil {
+		return
+	}
+	fn, kind = m[1], m[2]
+	detail := m[3]
+	tail = detail
+	if r := reLocalRoot.FindStringSubmatch(detail); r != nil {
+		tail = r[1]
+		root = detail[:len(detail)-len(tail)]
+	}
+	ptr = tail
+	if kind == "nil" || kind == "nilinvoke" || kind == "nilcall" || kind == "nilmap" {
+		ptr = reLastField.ReplaceAllString(tail, "")
+	}
+	if ptr == "" {
+		ptr = "@" + root
+	}
+	return fn, kind, root, tail, ptr, true
+}
+
+// sameAccess: two descriptions (within one function) name a dereference of the
+// same pointer: equal paths, equal pointer paths, or one a depth-limited cut of
+// the other.
+func sameAccess(a, b unprovedEntry) bool {
+	if a.kind != b.kind {
+		return false
+	}
+	if a.tail == b.tail || (a.ptr == b.ptr && !strings.HasPrefix(a.ptr, "@_")) {
 		return true
 	}
-	// the rule compares within one function: the validators of another function
-	// are not comparable (a path that is unclaimed only elsewhere matches as it is)
-	same := false
-	for i, c := range u.PathCtx[q] {
-		if u.PathFn[q][i] != fn {
-			continue
+	if a.cut || b.cut {
+		short, long := a.tail, b.tail
+		if len(short) > len(long) {
+			short, long = long, short
 		}
-		same = true
-		if subsetOf(c, ctx) {
+		if strings.Count(short, ".") >= 2 && strings.HasSuffix(long, short) {
+			return true
+		}
+		sp, lp := a.ptr, b.ptr
+		if len(sp) > len(lp) {
+			sp, lp = lp, sp
+		}
+		if strings.Count(sp, ".") >= 2 && strings.HasSuffix(lp, sp) {
 			return true
 		}
 	}
-	return !same
+	return false
 }
 
 func (u *UnprovedList) skip(fn, name string, params map[string]bool, ctx []string) bool {
+	// (1) the obligation itself, while the validators that ran before it still do
 	if u.Names[name] && (!u.HasCtx || subsetOf(u.Ctx[name], ctx)) {
 		return true
 	}
-	p := unprovedPath(name)
-	if p == "" {
-		// other kinds: by name only, but with the same validator rule through the function
+	f2, kind, root, tail, ptr, ok := splitObl(name)
+	if !ok {
 		return false
 	}
-	if u.Paths[p] && u.ctxOK(p, fn, ctx) {
-		return true
-	}
-	// a description cut at its depth limit ("_" for the part not shown) names
-	// the same access as a longer or shorter cut of it
-	if m := reOblName.FindStringSubmatch(name); m != nil {
-		i := strings.Index(p, "/")
-		kind, tail := p[:i+1], p[i+1:]
-		cut := strings.HasPrefix(m[3], "_")
-		for q := range u.Paths {
-			if !strings.HasPrefix(q, kind) || !(cut || u.Cut[q]) {
-				continue
-			}
-			qt := q[len(kind):]
-			short, long := tail, qt
-			if len(short) > len(long) {
-				short, long = long, short
-			}
-			if strings.Count(short, ".") >= 2 && strings.HasSuffix(long, short) && u.ctxOK(q, fn, ctx) {
-				return true
-			}
+	_ = f2
+	me := unprovedEntry{fn: fn, kind: kind, tail: tail, ptr: ptr, cut: strings.HasPrefix(root, "_")}
+	// (2) within the function: another dereference of a pointer that is already
+	// unclaimed there (same path, same pointer, or a cut of it), under the same
+	// validator rule
+	for _, e := range u.byFn[fn] {
+		if sameAccess(me, e) && (!u.HasCtx || subsetOf(e.ctx, ctx)) {
+			return true
 		}
 	}
+	// (3) a function that did not exist when the baseline was recorded
 	if u.isNew(fn) {
-		i := strings.Index(p, "/")
-		kind, tail := p[:i+1], p[i+1:]
 		if tail == "" {
 			return true
 		}
 		// rooted at a parameter of the new helper: what the parameter points to is
 		// the caller's business; the helper is unfolded at its call sites (when it
 		// is loop-free) and the dereference is checked there, in context
-		if m := reOblName.FindStringSubmatch(name); m != nil {
-			if r := reOblRoot.FindString(m[3]); r != "" && params[r] {
-				return true
-			}
+		if params[root] {
+			return true
 		}
 		for q := range u.Paths {
-			if strings.HasPrefix(q, kind) && strings.HasSuffix(q, tail) {
+			if strings.HasPrefix(q, kind+"/") && strings.HasSuffix(q, tail) {
 				return true
 			}
 		}
@@ -136,7 +162,12 @@ var reLocalRoot = regexp.MustCompile(`^(?:_|[a-z][A-Za-z0-9_]*|t\d+)(?:#\d+)?((?
 
 var reOblRoot = regexp.MustCompile(`^(?:_|[a-z][A-Za-z0-9_]*)`)
 
-func (u *UnprovedList) isNew(fn string) bool { return len(u.Funcs) > 0 && !u.Funcs[fn] }
+// isNew: no function of that name, and no other instance of the same generic
+// function, was swept when the baseline was recorded.
+func (u *UnprovedList) isNew(fn string) bool {
+	return len(u.Funcs) > 0 && !u.Funcs[fn] && !u.Funcs[stripTypeArgs(fn)]
+}
+
 
 // unprovedPath: "generator.NewRouter/nil/sec.Scheme.Type#2" -> "nil/.Scheme.Type"; "" for other kinds.
 func unprovedPath(name string) string {
@@ -152,7 +183,7 @@ func unprovedPath(name string) string {
 }
 
 func LoadUnproved(path string) *UnprovedList {
-	u := &UnprovedList{Names: map[string]bool{}, Paths: map[string]bool{}, Funcs: map[string]bool{}, Cut: map[string]bool{}, Ctx: map[string][]string{}, PathCtx: map[string][][]string{}, PathFn: map[string][]string{}}
+	u := &UnprovedList{Names: map[string]bool{}, Paths: map[string]bool{}, Funcs: map[string]bool{}, Cut: map[string]bool{}, Ctx: map[string][]string{}, PathCtx: map[string][][]string{}, PathFn: map[string][]string{}, byFn: map[string][]unprovedEntry{}}
 	if cd, err := os.ReadFile(strings.TrimSuffix(path, "-unproved.json") + "-context.json"); err == nil {
 		if json.Unmarshal(cd, &u.Ctx) == nil && len(u.Ctx) > 0 {
 			u.HasCtx = true
@@ -163,6 +194,7 @@ func LoadUnproved(path string) *UnprovedList {
 		if json.Unmarshal(fd, &fs) == nil {
 			for _, f := range fs {
 				u.Funcs[f] = true
+				u.Funcs[stripTypeArgs(f)] = true
 			}
 		}
 	}
@@ -174,6 +206,9 @@ func LoadUnproved(path string) *UnprovedList {
 	if json.Unmarshal(data, &names) == nil {
 		for _, n := range names {
 			u.Names[n] = true
+			if fn, kind, root, tail, ptr, ok := splitObl(n); ok {
+				u.byFn[fn] = append(u.byFn[fn], unprovedEntry{fn: fn, kind: kind, tail: tail, ptr: ptr, cut: strings.HasPrefix(root, "_"), ctx: u.Ctx[n]})
+			}
 			if p := unprovedPath(n); p != "" {
 				u.Paths[p] = true
 				u.PathCtx[p] = append(u.PathCtx[p], u.Ctx[n])
